@@ -131,12 +131,49 @@ def _cmp(name):
             m.sx.call_local(st, fr, fr.insts, peeled['inst'], [a2, b2], dest, term['target'])
             return [(st, None)]
         x, y = m.deref(st, a), m.deref(st, b)
+        if _is_option(m, x) or _is_option(m, y):
+            return _cmp_option(m, st, name, x, y)
         if name == 'partial_cmp':
             return _partial_cmp(m, st, x, y)
         if name == 'cmp':
             return _total_cmp(m, st, x, y)
         return op(name, x, y)
     return f
+
+
+def _is_option(m, v):
+    if v[0] == 'adt':
+        return v[1] == OPTION
+    if v[0] == 'sym':
+        return adt_name(m.sx.symty.get(v[1]) or {}) == OPTION
+    return False
+
+
+def _cmp_option(m, st, name, x, y):
+    """core's derived comparisons on Option<T>: None < Some(_), Some(a) ? Some(b) as a ? b (references peeled)"""
+    out = []
+    LESS, EQUAL, GREATER = (('adt', ORDERING, i, ()) for i in (0, 1, 2))
+    for s2, a in m.expand_enum(st, x):
+        for s3, b in m.expand_enum(s2, y):
+            if a[2] == 1 and b[2] == 1:
+                p, q = m.deref(s3, a[3][0]), m.deref(s3, b[3][0])
+                if _is_option(m, p) or _is_option(m, q):
+                    out.extend(_cmp_option(m, s3, name, p, q))
+                elif name == 'partial_cmp':
+                    out.extend(_partial_cmp(m, s3, p, q))
+                elif name == 'cmp':
+                    out.extend(_total_cmp(m, s3, p, q))
+                else:
+                    out.append((s3, op(name, p, q)))
+                continue
+            rel = (a[2] > b[2]) - (a[2] < b[2])       # None (0) sorts before Some (1)
+            if name == 'partial_cmp':
+                out.append((s3, some((LESS, EQUAL, GREATER)[rel + 1])))
+            elif name == 'cmp':
+                out.append((s3, (LESS, EQUAL, GREATER)[rel + 1]))
+            else:
+                out.append((s3, ('bool', {'lt': rel < 0, 'le': rel <= 0, 'gt': rel > 0, 'ge': rel >= 0, 'eq': rel == 0, 'ne': rel != 0}[name])))
+    return out
 
 
 def _partial_cmp(m, st, x, y):
@@ -990,6 +1027,9 @@ def _into_iter(m, st, fr, callee, args, dest_ty, term):
     targs = callee.get('targs', [])
     if targs and targs[0].get('k') == 'array' and args[0][0] == 'tuple':
         return iters.mk('Array', args[0], T.mk_int(0))
+    if targs and adt_name(targs[0]) == OPTION:
+        # Option<T> iterates over its zero or one element
+        return [(s2, iters.mk('Array', ('tuple', (v[3][0],) if v[2] == 1 else ()), T.mk_int(0))) for s2, v in m.expand_enum(st, args[0], targs[0])]
     src = m.sx.resolve_deep(st, args[0])
     it = m.sx.fresh('iter', None)
     m.sx.symdef[it[1]] = ('call', 'into_iter', (src,))
@@ -1028,12 +1068,37 @@ def _iter_copied(m, st, fr, callee, args, dest_ty, term):
     return _iter_adapter('copied')(m, st, fr, callee, args, dest_ty, term)
 
 
+def _second_iter(m, st, fr, callee, other, term):
+    """zip / chain take `U: IntoIterator`: the std body calls into_iter on it -> [(state, iterator)]"""
+    if _is_iterator_value(m, other) or other[0] == 'ref':
+        return [(st, other)]
+    r = _into_iter(m, st, fr, {'targs': (callee.get('targs') or [None, None])[1:2]}, [other], None, term)
+    return r if isinstance(r, list) else [(st, r)]
+
+
 def _iter_zip(m, st, fr, callee, args, dest_ty, term):
     from . import iters
-    other = args[1]
-    if not _is_iterator_value(m, other):
-        other = _into_iter(m, st, fr, {'targs': (callee.get('targs') or [None, None])[1:2]}, [other], None, term)
-    return iters.mk('Zip', args[0], other)
+    return [(s2, iters.mk('Zip', args[0], o)) for s2, o in _second_iter(m, st, fr, callee, args[1], term)]
+
+
+def _iter_chain(m, st, fr, callee, args, dest_ty, term):
+    from . import iters
+    return [(s2, iters.mk('Chain', args[0], o)) for s2, o in _second_iter(m, st, fr, callee, args[1], term)]
+
+
+def _iter_filter(kind):
+    def f(m, st, fr, callee, args, dest_ty, term):
+        from . import iters
+        return iters.mk(kind, args[0], args[1])
+    return f
+
+
+def _iter_count_model(m, st, fr, callee, args, dest_ty, term):
+    from . import iters
+    it = args[0]
+    if iters.kind_of(it) == 'Array':
+        return T.mk_int(len(it[3][0][1]) - it[3][1][1])
+    return _iter_count(m, st, fr, callee, args, dest_ty, term)
 
 
 def _iter_enumerate(m, st, fr, callee, args, dest_ty, term):
@@ -1094,12 +1159,28 @@ def _slice_len(m, st, fr, callee, args, dest_ty, term):
     return op('len', m.deref(st, args[0]))
 
 
-def _ord_min(m, st, fr, callee, args, dest_ty, term):
-    return op('min', args[0], args[1])
+def _ord_pick(which):
+    def f(m, st, fr, callee, args, dest_ty, term):
+        # Ord::min / Ord::max of a local field-less enum with a *derived* Ord: declaration order of the variants
+        # (max returns the second argument on ties, min the first - indistinguishable for field-less variants)
+        targs = callee.get('targs') or []
+        ty = targs[0] if targs else None
+        if ty is not None and ty.get('k') == 'enum' and ty.get('local'):
+            imps = m.sx.facts.trait_impls('core::cmp::Ord', self_adt=ty.get('adt'))
+            vs = m.sx.tenv.variants(ty)
+            if len(imps) == 1 and imps[0].get('derived') and vs and all(not ftys for vn, dv, ftys in vs):
+                out = []
+                for s2, a in m.expand_enum(st, args[0], ty):
+                    for s3, b in m.expand_enum(s2, args[1], ty):
+                        pick = (a if a[2] < b[2] else b) if which == 'min' else (a if a[2] > b[2] else b)
+                        out.append((s3, pick))
+                return out
+        return op(which, args[0], args[1])
+    return f
 
 
-def _ord_max(m, st, fr, callee, args, dest_ty, term):
-    return op('max', args[0], args[1])
+_ord_min = _ord_pick('min')
+_ord_max = _ord_pick('max')
 
 
 def _into_inner(m, st, fr, callee, args, dest_ty, term):
@@ -1306,6 +1387,9 @@ MODELS = {
     'core::iter::Iterator::cloned': _iter_copied,
     'core::iter::Iterator::map': _iter_map,
     'core::iter::Iterator::zip': _iter_zip,
+    'core::iter::Iterator::chain': _iter_chain,
+    'core::iter::Iterator::filter': _iter_filter('Filter'),
+    'core::iter::Iterator::filter_map': _iter_filter('FilterMap'),
     'core::iter::Iterator::enumerate': _iter_enumerate,
     'core::iter::Iterator::rev': _iter_rev,
     'core::iter::Iterator::by_ref': _iter_by_ref,
@@ -1315,7 +1399,7 @@ MODELS = {
     'core::iter::Iterator::find': _closure_loop('find'),
     'core::iter::Iterator::find_map': _closure_loop('find_map'),
     'core::iter::Iterator::collect': _iter_adapter('collect'),
-    'core::iter::Iterator::count': _iter_count,
+    'core::iter::Iterator::count': _iter_count_model,
     'core::iter::Iterator::for_each': _closure_loop('for_each'),
     'core::iter::Iterator::try_for_each': _closure_loop('try_for_each'),
     'core::iter::Iterator::fold': _closure_loop('fold'),
